@@ -235,7 +235,17 @@ def emit_spec(pack, render_kw=None, tables_name="vf_tables.h", driver="vf_driver
         act = "{ vf_body(); }" if r.action.strip() == "{ }" else r.action
         body = "<<EOF>> %s" % act if r.eof else "%s %s" % (r.pattern_text(**render_kw), act)
         style = getattr(r, "scope_style", "prefix")
-        if style == "scope" and pre:
+        if getattr(r, "scope_open", None):
+            # several rules inside one <S>{ } scope: the scope supplies the conditions of the rules that carry no list of their own
+            # (emit_prefix False); a rule's own list (prefix_text) adds to it - nested lists accumulate - for that rule only
+            L.append("<" + ",".join(r.scope_open) + ">{")
+        if getattr(r, "scope_open", None) or getattr(r, "in_scope", False):
+            pack.line2group[sum(x.count("\n") + 1 for x in L) + 1] = gi
+            pack.line2rule[sum(x.count("\n") + 1 for x in L) + 1] = pack._cur_rule
+            L.append((getattr(r, "prefix_text", pre) if getattr(r, "emit_prefix", True) else "") + body)
+            if getattr(r, "scope_close", False):
+                L.append("}")
+        elif style == "scope" and pre:
             L.append(pre + "{")
             pack.line2group[sum(x.count("\n") + 1 for x in L) + 1] = gi
             pack.line2rule[sum(x.count("\n") + 1 for x in L) + 1] = pack._cur_rule
